@@ -2,6 +2,8 @@ import PkVerif.Model.Attr
 /-!
 # Lemmas for C07 (attribute folding, the incremental cache, deletion)
 -/
+set_option linter.unusedSimpArgs false
+
 namespace Pk.Attr
 
 /-! ## sorting -/
@@ -1204,7 +1206,166 @@ theorem World.idxAttrValue_eq (w : World) (p : Nat) (attr : Bytes) (at_ : Option
   congr 2
   apply List.filter_congr
   intro c _
-  simp only [World.rowsOf, rel, Bool.and_true]
+  simp only [World.rowsOf, rel, attrFilterOk, Bool.and_true]
   cases signerOk f c <;> cases w.idxIsDeleted (.cl c.id) <;> simp
+
+/-! ## Describe presents the values as a set of non-empty strings -/
+
+/-- keep the first occurrence of every non-empty value -/
+def normFrom (acc : List Bytes) (vs : List Bytes) : List Bytes :=
+  vs.foldl (fun acc v => if v = [] ∨ v ∈ acc then acc else acc ++ [v]) acc
+
+def norm (vs : List Bytes) : List Bytes := normFrom [] vs
+
+theorem norm_append_single (vs : List Bytes) (v : Bytes) :
+    norm (vs ++ [v]) = if v = [] then norm vs else if v ∈ norm vs then norm vs else norm vs ++ [v] := by
+  unfold norm normFrom
+  rw [List.foldl_append]
+  simp only [List.foldl_cons, List.foldl_nil]
+  by_cases h : v = []
+  · simp [h]
+  · by_cases h2 : v ∈ List.foldl (fun acc v => if v = [] ∨ v ∈ acc then acc else acc ++ [v]) [] vs
+    · simp [h2]
+    · simp [h, h2]
+
+theorem normFrom_filter (w : Bytes) (vs acc : List Bytes) :
+    normFrom (acc.filter (fun x => decide (x ≠ w))) (vs.filter (fun x => decide (x ≠ w)))
+      = (normFrom acc vs).filter (fun x => decide (x ≠ w)) := by
+  induction vs generalizing acc with
+  | nil => rfl
+  | cons v t ih =>
+    by_cases hv : v = w
+    · subst hv
+      have h1 : (v :: t).filter (fun x => decide (x ≠ v)) = t.filter (fun x => decide (x ≠ v)) := by
+        simp [List.filter_cons]
+      rw [h1]
+      unfold normFrom at ih ⊢
+      rw [List.foldl_cons]
+      by_cases hc : v = [] ∨ v ∈ acc
+      · rw [if_pos hc]; exact ih acc
+      · rw [if_neg hc]
+        have := ih (acc ++ [v])
+        rw [← this]
+        congr 1
+        simp [List.filter_append, List.filter_cons]
+    · have h1 : (v :: t).filter (fun x => decide (x ≠ w)) = v :: t.filter (fun x => decide (x ≠ w)) := by
+        simp [List.filter_cons, hv]
+      rw [h1]
+      unfold normFrom at ih ⊢
+      rw [List.foldl_cons, List.foldl_cons]
+      have hmem : v ∈ acc.filter (fun x => decide (x ≠ w)) ↔ v ∈ acc := by
+        simp [List.mem_filter, hv]
+      by_cases hc : v = [] ∨ v ∈ acc
+      · have hc' : v = [] ∨ v ∈ acc.filter (fun x => decide (x ≠ w)) := by
+          cases hc with
+          | inl h => exact Or.inl h
+          | inr h => exact Or.inr (hmem.mpr h)
+        rw [if_pos hc, if_pos hc']; exact ih acc
+      · have hc' : ¬ (v = [] ∨ v ∈ acc.filter (fun x => decide (x ≠ w))) := by
+          intro h
+          cases h with
+          | inl h => exact hc (Or.inl h)
+          | inr h => exact hc (Or.inr (hmem.mp h))
+        rw [if_neg hc, if_neg hc']
+        have := ih (acc ++ [v])
+        rw [← this]
+        congr 1
+        simp [List.filter_append, List.filter_cons, hv]
+
+theorem norm_filter (w : Bytes) (vs : List Bytes) :
+    norm (vs.filter (fun x => decide (x ≠ w))) = (norm vs).filter (fun x => decide (x ≠ w)) := by
+  have := normFrom_filter w vs []
+  simpa [norm] using this
+
+/-- one claim of Describe's fold = the documented step, seen through `norm` -/
+theorem describeStep_norm (vs : List Bytes) (k : Kind) (v : Bytes) :
+    describeStep (norm vs) k v = norm (step vs k v) := by
+  cases k with
+  | set =>
+    simp only [describeStep, step]
+    by_cases h : v = []
+    · simp [h, norm, normFrom]
+    · simp [h, norm, normFrom]
+  | add =>
+    simp only [describeStep, step]
+    rw [norm_append_single]
+  | del =>
+    simp only [describeStep, step]
+    by_cases h : v = []
+    · simp [h, norm, normFrom]
+    · simp only [h, if_false]
+      rw [norm_filter]
+  | delete => rfl
+
+theorem foldl_describeStep (l : List Claim) (vs : List Bytes) :
+    l.foldl (fun vs c => describeStep vs c.kind c.val) (norm vs)
+      = norm (l.foldl (fun v c => step v c.kind c.val) vs) := by
+  induction l generalizing vs with
+  | nil => rfl
+  | cons c t ih =>
+    simp only [List.foldl_cons]
+    rw [describeStep_norm]
+    exact ih _
+
+/-- the claims Describe folds: the date-sorted rows of the permanode that are the owner's, not deleted,
+about the attribute and not after the time asked (zero: no time bound) -/
+theorem World.describe_eq (w : World) (m : Mode) (p : Nat) (attr : Bytes) (at_ : Option Nat) (s : Nat) :
+    ∃ l, l.Perm (w.claimsOf p) ∧ Sorted l ∧
+      w.describe m p attr at_ s = norm (foldVals (l.filter (fun c =>
+        decide (c.attr = attr) && notAfter at_ c && signerOk (some s) c && !w.idxIsDeleted (.cl c.id)))) := by
+  have key : ∀ (l : List Claim) (q : Claim → Bool),
+      ((l.filter q).filter (fun c => decide (c.attr = attr) && notAfter at_ c)).foldl
+        (fun vs c => describeStep vs c.kind c.val) []
+      = norm (foldVals (l.filter (fun c => (decide (c.attr = attr) && notAfter at_ c) && q c))) := by
+    intro l q
+    rw [List.filter_filter]
+    exact foldl_describeStep _ []
+  cases m with
+  | idx =>
+    refine ⟨sortByDate (w.rowsOf p), (sortByDate_perm _).trans (w.rowsOf_perm p), sortByDate_sorted _, ?_⟩
+    simp only [World.describe, World.idxAppendClaims]
+    rw [← filter_sortByDate, key]
+    congr 2
+    apply List.filter_congr
+    intro c _
+    simp only [attrFilterOk, Bool.and_true, Bool.and_assoc]
+  | inc =>
+    simp only [World.describe, World.corpusAppendClaims]
+    cases h : w.pm .inc p with
+    | none =>
+      have he := w.pm_none .inc p (by decide) h
+      exact ⟨[], by rw [he], by simp [Sorted], by simp [sortByDate, sortBy, foldVals, norm, normFrom]⟩
+    | some pm =>
+      obtain ⟨hi, hp⟩ := w.pm_inv .inc p pm h
+      refine ⟨pm.claims, hp, hi.sorted, ?_⟩
+      simp only
+      rw [sortByDate_of_sorted _ (hi.sorted.filter _), key]
+      congr 2
+      apply List.filter_congr
+      intro c _
+      have : w.isDeleted .inc (.cl c.id) = w.idxIsDeleted (.cl c.id) :=
+        isDeletedIn_congr (fun d => (w.mem_deletes .inc d).trans (w.mem_deletes .idx d).symm) _ _
+      rw [this]
+      simp only [attrFilterOk, Bool.and_true]
+      cases signerOk (some s) c <;> cases w.idxIsDeleted (.cl c.id) <;> simp
+  | load =>
+    simp only [World.describe, World.corpusAppendClaims]
+    cases h : w.pm .load p with
+    | none =>
+      have he := w.pm_none .load p (by decide) h
+      exact ⟨[], by rw [he], by simp [Sorted], by simp [sortByDate, sortBy, foldVals, norm, normFrom]⟩
+    | some pm =>
+      obtain ⟨hi, hp⟩ := w.pm_inv .load p pm h
+      refine ⟨pm.claims, hp, hi.sorted, ?_⟩
+      simp only
+      rw [sortByDate_of_sorted _ (hi.sorted.filter _), key]
+      congr 2
+      apply List.filter_congr
+      intro c _
+      have : w.isDeleted .load (.cl c.id) = w.idxIsDeleted (.cl c.id) :=
+        isDeletedIn_congr (fun d => (w.mem_deletes .load d).trans (w.mem_deletes .idx d).symm) _ _
+      rw [this]
+      simp only [attrFilterOk, Bool.and_true]
+      cases signerOk (some s) c <;> cases w.idxIsDeleted (.cl c.id) <;> simp
 
 end Pk.Attr
